@@ -499,6 +499,14 @@ def symbolic_comprehension(it, e, env, kind, seq):
             src = getattr(seq, "note", None)
             return SymMap(seq.length, lambda i: fn_elem(i)[0], lambda i: fn_elem(i)[1], key_is_index=False,
                           distinct_from=seq)
+        src = getattr(seq, "src", None)
+        if src is not None and isinstance(kprobe, Sym) and not src.key_is_index:
+            k0 = src.key_fn(Sym(iv, int))
+            if isinstance(k0, Sym) and z3.eq(z3.simplify(k0.term), z3.simplify(kprobe.term)):
+                # {key: f(value) for key, value in m.items()}: same keys in the same order
+                out = SymMap(seq.length, src.key_fn, lambda i: fn_elem(i)[1], key_is_index=False)
+                out.absent = getattr(src, "absent", frozenset())
+                return out
         raise Unsupported("dict comprehension over symbolic sequence with non-integer symbolic keys")
     pycls = {"list": list, "gen": list, "set": set}[kind]
     if kind == "set":
@@ -794,7 +802,14 @@ class SymMap:
         raise Unsupported("lookup in a symbolic mapping with non-index keys")
 
     def items(self):
-        return SymSeq(self.n, lambda i: (self.key_fn(i), self.val_fn(i)), list, note="items")
+        s = SymSeq(self.n, lambda i: (self.key_fn(i), self.val_fn(i)), list, note="items")
+        s.src = self
+        return s
+
+    def sym_contains(self, it, item):
+        if isinstance(item, str) and item in getattr(self, "absent", ()):
+            return False
+        raise Unsupported("membership in a symbolic mapping")
 
     def values(self):
         return SymSeq(self.n, lambda i: self.val_fn(i), list, note="values")
@@ -818,6 +833,9 @@ def _symmap_method(self, it, name, a, k):
         return self.values()
     if name == "keys":
         return self.keys()
+    if name == "get" and a and isinstance(a[0], str) and a[0] in getattr(self, "absent", ()):
+        # a key the mapping is known (precondition) not to hold
+        return a[1] if len(a) > 1 else k.get("default")
     raise Unsupported(f"dict.{name} on symbolic mapping")
 
 
@@ -870,6 +888,10 @@ def _isinstance(it, a, k):
 
             if any(x is _C.EnumIntegerString for x in ts):
                 return True
+        if isinstance(v.pyt, type) and getattr(v.pyt, "opaque_class", False):
+            # a value of unknown class: the answer is an uninterpreted predicate of the value, the caller's branch forks
+            names = ",".join(sorted(getattr(x, "__name__", str(x)) for x in ts))
+            return Sym(z3.Function(f"isinstance[{names}]", v.term.sort(), z3.BoolSort())(v.term), bool)
         cls = v.pyt if isinstance(v.pyt, type) else _PYT_CLASSES.get(v.pyt, object)
         if cls is object:
             return False
@@ -1262,6 +1284,15 @@ def _dict_items(it, d):
 def _valmap(it, a, k):
     f, d = a[0], a[1]
     factory = a[2] if len(a) > 2 else k.get("factory", dict)
+    if isinstance(d, SymMap) and factory is dict:
+        # pointwise on a mapping with a symbolic number of entries: the body is evaluated once on the generic entry (so that
+        # its exceptions and effects surface), the result maps key i to f(value i)
+        iv = trial_var(it)
+        with IndexContext(it, iv, 0, z3_of(d.n)):
+            dispatch_call(it, f, [d.val_fn(Sym(iv, int))], {})
+        out = SymMap(d.n, d.key_fn, lambda i: dispatch_call(it, f, [d.val_fn(i)], {}), key_is_index=d.key_is_index)
+        out.absent = getattr(d, "absent", frozenset())
+        return out
     out = factory()
     for kk, v in _dict_items(it, d):
         out[kk] = dispatch_call(it, f, [v], {})
